@@ -4151,6 +4151,16 @@ func checkGatewayWildcardsAndUpdate(tx WriteTxn, idx uint64, svc *structs.Servic
 				continue
 			}
 
+			// If the gateway's config entry also lists this service on its own, the listed
+			// association is the source of truth (as in updateGatewayNamespace): leave it alone.
+			listed, err := tx.First(tableGatewayServices, indexID, wildcardSvc.Gateway, structs.NewServiceName(svc.Name, &svc.EnterpriseMeta), wildcardSvc.Port)
+			if err != nil {
+				return fmt.Errorf("gateway service lookup failed: %s", err)
+			}
+			if gs, ok := listed.(*structs.GatewayService); ok && gs != nil && !gs.FromWildcard {
+				continue
+			}
+
 			// Copy the wildcard mapping and modify it
 			gatewaySvc := wildcardSvc.Clone()
 
